@@ -368,6 +368,10 @@ fn emit_fn(d: &FnDirective, srcs: &mut Sources, out: &mut Out, stats: &mut norm:
     if let Some(mac) = d.opts.get("macro") {
         block = norm::extract_macro_block(&block, mac, &desc, stats);
     }
+    if let Some(pfx) = d.opts.get("until-stmt") {
+        let app = d.opts.get("append").map(|a| a.replace('~', " "));
+        norm::until_stmt(&mut block, &pfx.replace('~', " "), app.as_deref(), &desc, stats);
+    }
     if let Some(pfx) = d.opts.get("from-stmt") {
         norm::from_stmt(&mut block, &pfx.replace('~', " "), &desc, stats);
     }
